@@ -13,6 +13,8 @@ the block and clears its lines -- there the "removed" half of clause (d) is off.
   (a) every path of cmd_paths(patch) is covered by the united ACL level by level, directly or as the reverse form; the
       block-exit word is excepted                                             key  patch-command-outside-acl
       ... and is not the negation of a row governed only by undeletable rules key  patch-command-negates-undeletable-row
+      (decided both through the reference matcher and directly: `<neg> X` typed in the block where the device holds X and
+      every rule matching X is undeletable -- e.g. only a catch-all `~ %cant_delete=1`)
   (b) dev' = dev_apply(old, cmd_paths): every row of old that no rule covers (all its ancestors covered) and whose ancestors
       all survive in dev' is in dev' with exactly its old subtree                     key  uncovered-row-changed
       and dev' has no row that is neither in old nor in the covered part of new       key  foreign-row-created
@@ -112,17 +114,20 @@ def _acl_struct(rnd, tree, level, drop):
         if rnd.random() < drop:
             continue
         if level >= 1 and rnd.random() < 0.15:
-            out.setdefault("~", ["%global", odict()])
+            out.setdefault("~", [rnd.choice(["%global", "%global", "%global  %cant_delete=1", "%global  %cant_delete=0"]), odict()])
             continue
         pat = _pattern(rnd, row)
         par = rnd.choice(["", "", "", "%cant_delete=0", "%cant_delete=0", "%cant_delete=1", "%cant_delete"])
         sub = _acl_struct(rnd, ch, level + 1, drop)
         if pat in out:
-            if out[pat][0] != "%global":
+            if "%global" not in out[pat][0]:
                 for k, v in sub.items():
                     out[pat][1].setdefault(k, v)
         else:
             out[pat] = [par, sub]
+    if tree and "~" not in out and rnd.random() < 0.2:
+        # a catch-all for the lines no more specific rule names, mostly undeletable
+        out["~"] = [rnd.choice(["%cant_delete=1", "%cant_delete=1", "%cant_delete", "%cant_delete=0", ""]), odict()]
     return out
 
 
@@ -130,7 +135,7 @@ def _render(struct, level=0):
     lines = []
     for pat, (par, sub) in struct.items():
         lines.append("    " * level + pat + ("  " + par if par else ""))
-        if par != "%global":
+        if "%global" not in par:
             lines.extend(_render(sub, level + 1))
     return lines
 
@@ -175,15 +180,38 @@ def port_case(rnd, idx):
     return dict(vendor=vendor, rb=rb, gens=gens, old=old, new=new, mode="conformant", via_gen=False)
 
 
+def add_negations(rnd, old, new, neg, p=0.3):
+    """the generators also yield delete commands for lines the device holds: for some rows of old put `<neg> row` into new at
+    the same block path (next to the row or instead of it); the enclosing blocks are created in new when missing"""
+    out = [[r, list(ch)] for r, ch in new]
+    for row, ch in old:
+        if row.startswith(neg + " "):
+            continue
+        here = [x for x in out if x[0] == row]
+        if rnd.random() < p:
+            if here and rnd.random() < 0.5:
+                out.remove(here[0])
+                here = []
+            out.insert(rnd.randint(0, len(out)), ["%s %s" % (neg, row), []])
+        elif ch and rnd.random() < 0.6:
+            if not here:
+                here = [[row, []]]
+                out.append(here[0])
+            here[0][1] = add_negations(rnd, ch, here[0][1], neg, p + 0.15)
+    return out
+
+
 def random_case(rnd, idx):
     if idx % 8 == 7:
         return port_case(rnd, idx // 8)
     vendor = VENDORS[idx % len(VENDORS)][0] if idx % 5 else "huawei"
     neg = ref_acl.NEGATION[vendor]
     old = rand_tree(rnd, 0, rnd.choice([0.4, 0.6, 0.8]))
-    mode = rnd.choice(["conformant", "conformant", "conformant", "raw"])
+    mode = rnd.choice(["conformant", "conformant", "conformant", "raw", "raw"])
     newraw = mutate_tree(rnd, old) if rnd.random() < 0.7 else rand_tree(rnd, 0, 0.5)
-    if mode == "raw" and rnd.random() < 0.6:
+    if mode == "raw" and rnd.random() < 0.7:
+        newraw = add_negations(rnd, old, newraw, neg)
+    elif mode == "raw" and rnd.random() < 0.6:
         newraw = newraw + rand_tree(rnd, 0, 0.0, neg=neg)[:1]
         if newraw and newraw[0][1] is not None and rnd.random() < 0.5:
             for r in newraw:
@@ -196,7 +224,11 @@ def random_case(rnd, idx):
     for i in range(n):
         acl = "\n".join(derived_acl(rnd, base, drop=rnd.choice([0.1, 0.25, 0.4])))
         if rnd.random() < 0.15:
-            acl += "\n" + rnd.choice(["interface *\n    ~", "interface * %cant_delete=0\n    ~ %global", "a ~", "*", "interface *"])
+            acl += "\n" + rnd.choice(["interface *\n    ~", "interface * %cant_delete=0\n    ~ %global", "a ~", "*", "interface *",
+                                      "interface *\n    ~ %cant_delete=1", "a *\n    ~ %global %cant_delete=1"])
+        if mode == "raw" and rnd.random() < 0.2:
+            acl = rnd.choice(["~ %cant_delete=1", "~ %cant_delete=1\n    ~ %cant_delete=1", "~ %cant_delete=0\n    ~ %global %cant_delete=1",
+                              "interface *\n    ~ %cant_delete=1\n~ %cant_delete=1"])
         gens.append(dict(name="G%d" % i, acl=acl))
     return dict(vendor=vendor, rb=idx % len(RB_TEXTS), gens=gens, old=old, new=newraw, mode=mode,
                 via_gen=(vendor == "huawei" and mode == "conformant" and idx % 2 == 0))
@@ -218,6 +250,13 @@ HAND = [
     # a generator yielding the delete command of an undeletable row
     dict(vendor="huawei", rb=0, gens=[dict(name="G0", acl="interface *\n    ~")],
          old=[["interface x", [["mtu 9000", []]]]], new=[["undo interface x", []]], mode="raw", via_gen=False),
+    # a catch-all undeletable rule and a generator that yields the delete command of a device line (top level / in a block)
+    dict(vendor="huawei", rb=0, gens=[dict(name="G0", acl="~ %cant_delete=1")],
+         old=[["sys z", []], ["b 5", []]], new=[["undo sys z", []], ["b 5", []]], mode="raw", via_gen=False),
+    dict(vendor="cisco", rb=1, gens=[dict(name="G0", acl="interface *\n    ~ %cant_delete=1")],
+         old=[["interface x", [["mtu 9000", []], ["z", []]]]], new=[["interface x", [["no mtu 9000", []], ["z", []]]]], mode="raw", via_gen=False),
+    dict(vendor="arista", rb=0, gens=[dict(name="G0", acl="a *\n    ~ %global %cant_delete=1"), dict(name="G1", acl="b *")],
+         old=[["a b", [["x", [["p", []]]]]]], new=[["a b", [["x", [["no p", []]]], ["no x", []]]]], mode="raw", via_gen=False),
     # the built-in default also holds for rule texts that merely begin with `interface`
     dict(vendor="juniper", rb=0, gens=[dict(name="G0", acl="interfaces\n    ~ %global\ninterface-range *\n    ~")],
          old=[["interfaces", [["x", [["p", []]]]]], ["interface-range x", [["z", []]]], ["sys z", []]], new=[], mode="conformant", via_gen=False),
@@ -331,6 +370,16 @@ def _node(tree, path):
     return n
 
 
+def _negated_ancestor(p, paths, neg):
+    """the shortest proper prefix q of the row path p such that some command is `<neg> q[-1]` typed in the block q[:-1]
+    (the enclosing block was removed by the patch, whether or not it is created again afterwards)"""
+    cmds = set(paths)
+    for i in range(1, len(p)):
+        if p[:i - 1] + ("%s %s" % (neg, p[i - 1]),) in cmds:
+            return p[:i]
+    return None
+
+
 def _protected(cands):
     direct = [c for c in cands if not c.reverse]
     return bool(direct) and all(c.rule.no_delete for c in direct)
@@ -350,17 +399,22 @@ def check(case):
     rbt = SIM_TEXT[case["rb"]] if case["rb"] in SIM_TEXT else RB_TEXTS[case["rb"]]
     old = to_tree(case["old"])
     rules = united_rules(case["gens"])
-    info = dict(ambiguous=False, amb_cmds=0, cmds=0, uncovered=0, protected=0, via_gen=False)
+    info = dict(ambiguous=False, new_ambiguous=False, amb_cmds=0, cmds=0, uncovered=0, protected=0, via_gen=False)
     fails = []
     r_new = ref_acl.ref_eval(to_tree(case["new"]), rules, vendor)
     r_old = ref_acl.ref_eval(old, rules, vendor)
-    if r_new.ambiguous or r_old.ambiguous or r_new.clash or r_old.clash:
+    if r_old.ambiguous or r_old.clash:
         info["ambiguous"] = True
         return fails, info
-    new = r_new.tree if case["mode"] == "conformant" else to_tree(case["new"])
+    # when only the reading of `new` is ambiguous (typically a yielded delete command that one rule passes and another
+    # suppresses) the clauses about the DEVICE rows -- (b), (c) and the per-command part of (a) -- still have a definite
+    # expectation; new is then handed over raw and the clauses that need "the covered part of new" are left out
+    new_amb = bool(r_new.ambiguous or r_new.clash)
+    info["new_ambiguous"] = new_amb
+    new = r_new.tree if (case["mode"] == "conformant" and not new_amb) else to_tree(case["new"])
     exp_new = r_new.tree            # what the generators own of `new`
     runs = [("direct", old, new, real_acl(case["gens"], e.hw.vendor), None)]
-    if case.get("via_gen") and case["old"]:
+    if case.get("via_gen") and case["old"] and not new_amb:
         # (an empty device text makes _old_new_per_device assume the vendor's factory configuration instead: other scope)
         r = run_via_gen(case, e, old, exp_new, rules)
         if r is not None:
@@ -372,9 +426,18 @@ def check(case):
         cmds = [tuple(str(x) for x in p) for p in e.fmt.cmd_paths(patch).keys()]
         info["cmds"] += len(cmds)
         # (a)  (flat vendors: the rows of the patch tree with their block paths are the addressed lines)
-        for p in (_tree_paths(patch) if vendor in devsim.FLAT else cmds):
+        spaths = _tree_paths(patch) if vendor in devsim.FLAT else cmds
+        for p in spaths:
             if len(p) > 1 and p[-1] in devsim.EXIT[vendor]:
                 continue
+            # (c) on the command itself: the negation of a device row whose matching rules are all undeletable
+            if p[-1].startswith(neg + " "):
+                target = p[:-1] + (p[-1][len(neg) + 1:],)
+                if _node(r_old.tree, target) is not None and _protected(r_old.cands[target]):
+                    fails.append((K + "patch-command-negates-undeletable-row", "%s: the command %r is the negation of the device row %r that "
+                                  "is governed only by undeletable rules" % (how, " / ".join(p), " / ".join(target)), "no such command",
+                                  dict(cmds=cmds)))
+                    continue
             ok, r = ref_acl.ref_covers(p, rules, vendor)
             if r.ambiguous:
                 info["amb_cmds"] += 1
@@ -393,14 +456,14 @@ def check(case):
             continue
         # (b)
         for u in r_old.uncovered:
-            if all(_node(dev2, u[:i]) is not None for i in range(1, len(u))):
+            if all(_node(dev2, u[:i]) is not None for i in range(1, len(u))) and _negated_ancestor(u, spaths, neg) is None:
                 got = _node(dev2, u)
                 if got is None or plain(got) != plain(_node(old, u)):
                     fails.append((K + "uncovered-row-changed", "%s: the device row %r no ACL rule covers is not left as it was" % (how, " / ".join(u)),
                                   dict(row=" / ".join(u), subtree=to_nested(_node(old, u))),
                                   dict(subtree=(None if got is None else to_nested(got)), cmds=cmds)))
         oldp, newp = set(ref_acl.paths(old)), set(ref_acl.paths(exp_new))
-        for p in ref_acl.paths(dev2):
+        for p in ([] if new_amb else ref_acl.paths(dev2)):
             if p not in oldp and p not in newp:
                 fails.append((K + "foreign-row-created", "%s: the device gets the row %r that is neither in old nor in the covered part of new" %
                               (how, " / ".join(p)), None, dict(cmds=cmds, device=to_nested(dev2))))
@@ -413,6 +476,9 @@ def check(case):
             if _node(dev2, p) is None:
                 q = next(p[:i] for i in range(1, len(p) + 1) if _node(dev2, p[:i]) is None)
                 if q == p:
+                    # the enclosing block may have been removed by the patch and created again (new carries both forms)
+                    q = _negated_ancestor(p, spaths, neg) or p
+                if q == p:
                     fails.append((K + "cant_delete-row-removed", "%s: the row %r is covered only by undeletable rules and is removed" %
                                   (how, " / ".join(p)), "row kept", dict(cmds=cmds, device=to_nested(dev2))))
                 elif not _protected(r_old.cands[q]):
@@ -420,7 +486,7 @@ def check(case):
                                   "and disappears because its deletable ancestor %r is removed" % (how, " / ".join(p), " / ".join(q)),
                                   "row kept", dict(cmds=cmds, device=to_nested(dev2))))
         # (d)  (not for a `new` that carries delete commands: it may contradict itself)
-        has_neg = any(x.startswith(neg + " ") for p in ref_acl.paths(to_tree(case["new"])) for x in p)
+        has_neg = new_amb or any(x.startswith(neg + " ") for p in ref_acl.paths(to_tree(case["new"])) for x in p)
         for p in ([] if (has_neg or case["rb"] == "shipped") else ref_acl.paths(exp_new)):
             if _node(dev2, p) is None:
                 fails.append((K + "acl-scope:covered-row-not-added", "%s: the covered row %r of new does not reach the device" % (how, " / ".join(p)),
@@ -454,7 +520,7 @@ def cases(tier, seed, part, nparts):
 
 
 def run(tier="quick", seed=0, part=0, nparts=1):
-    ev = amb = via = ambc = 0
+    ev = amb = via = ambc = namb = 0
     nontrivial = set()
     failures = []
     per_key = {}
@@ -465,6 +531,7 @@ def run(tier="quick", seed=0, part=0, nparts=1):
         amb += bool(info["ambiguous"])
         via += bool(info["via_gen"])
         ambc += info["amb_cmds"]
+        namb += bool(info["new_ambiguous"])
         if info["cmds"] and (info["uncovered"] or info["protected"]) and not info["ambiguous"]:
             nontrivial.add(h(case))
         if part == 0 and len(samples) < 2 and info["cmds"] >= 3 and info["uncovered"] and len(case["gens"]) == 2 and i > len(HAND):
@@ -474,7 +541,7 @@ def run(tier="quick", seed=0, part=0, nparts=1):
             if per_key[k] <= 3:
                 failures.append(dict(key=k, text=text, case=case, expected=exp, actual=act))
     return dict(
-        evaluations=ev, nontrivial=sorted(nontrivial), failures=failures, samples=samples, failure_counts=per_key, ambiguous=amb, ambiguous_commands=ambc,
+        evaluations=ev, nontrivial=sorted(nontrivial), failures=failures, samples=samples, failure_counts=per_key, ambiguous=amb, ambiguous_commands=ambc, new_ambiguous_checked_bc=namb,
         via_old_new_per_device=via,
         rule="seeded random cases (%d hand-made first): device tree old over rows %r (depth <= 3); new = a mutation of old or an "
              "independent tree, taken ACL-conformant (filtered by the reference matcher; 3 of 4 cases) or raw (uncovered rows and "
@@ -489,8 +556,12 @@ def run(tier="quick", seed=0, part=0, nparts=1):
              "the SHIPPED cisco.rul (`interface GigabitEthernet0/1`; clause (d) off there); rows whose first word merely begins with "
              "`interface` (interfaces, interface-range x, interfaceX) carry the built-in default too; half "
              "of the conformant huawei cases also through annet.gen._old_new_per_device (stub device/context, real generator "
-             "classes). No %%prio, no %%global on patterns other than `~`. Cases whose old / new the reference matcher calls ambiguous are skipped "
-             "(counted in `ambiguous`), single patch commands it calls ambiguous are left out of clause (a) (`ambiguous_commands`). Non-trivial = the patch has commands and old has an uncovered row or a row covered only by undeletable "
+             "classes). No %%prio, no %%global on patterns other than `~`. ACL levels also get a catch-all `~` (or `~ %%global`) "
+             "with %%cant_delete=1/0; raw `new` (2 of 5) also carries the NEGATED forms `<neg> row` of rows the device holds, at the "
+             "same block path. Cases whose OLD the reference matcher calls ambiguous are skipped (`ambiguous`); when only NEW is "
+             "ambiguous, new is handed over raw and the clauses about device rows -- (b), (c), the command part of (a) -- are still "
+             "checked (`new_ambiguous_checked_bc`); single patch commands it calls ambiguous are left out of the coverage part of "
+             "(a) (`ambiguous_commands`). Non-trivial = the patch has commands and old has an uncovered row or a row covered only by undeletable "
              "rules; distinct by the json of the case" % (len(HAND), ROWS),
         bound="%d seeded random cases, trees of depth <= 3 over %d rows, 1-2 generators" % (n_cases(tier), sum(len(x) for x in ROWS)))
 
